@@ -193,7 +193,9 @@ class World(c01.World):
                 'closure with the hard-core flag), kT <= 4. Monitors: (a) per-instance probe around each hard-core pair closure: at every '
                 'evaluation c+gamma=-1 for r<=sigma to 4 ulp*max(1,|gamma|) (|gamma|<=1e6); (b) after every solver callback and every adversarial '
                 'cost(x) call by the user (|gamma| up to 1e3, spikes at contact, sign patterns): F^-1(directCorr)+gamma_in=-1 on the mask; '
-                '(c) after a successful solve |g|<=|reported F|/r + tol. Non-trivial: >= 20 callbacks monitored and the solve converged. '
+                '(c) after a successful solve |g|<=|reported F|/r + tol, and g(r) read through calculate.pair_correlation (after every solve '
+                'attempt, also on a PRISM object that is solved a second time) equals the stored h+1. Core radius = closure contact distance '
+                'if flagged, else the potential\'s own sigma. Non-trivial: >= 20 callbacks monitored and the solve converged. '
                 'Distinct: run digests.')
 
     def assumptions(self):
